@@ -266,9 +266,8 @@ func (cfg *Config) paramExp(pe *syntax.ParamExp) (string, error) {
 			case "Q":
 				str, err = syntax.Quote(str, syntax.LangBash)
 				if err != nil {
-					// Is this even possible? If a user runs into this panic,
-					// it's most likely a bug we need to fix.
-					panic(err)
+					// For example, a null byte which was read from a file.
+					return "", err
 				}
 			case "E":
 				tail := str
@@ -309,6 +308,8 @@ func (cfg *Config) paramExp(pe *syntax.ParamExp) (string, error) {
 				str = strings.ToLower(str)
 			case "K", "k":
 				// TODO: implement, like @A but listing keys for assoc arrays.
+			case "#":
+				// TODO: implement mksh's hash of the value.
 			default:
 				panic(fmt.Sprintf("unexpected @%s param expansion", arg))
 			}
